@@ -94,7 +94,7 @@ ASSUMPTIONS = [
     "(Runaway); the budget oracles are applied to what was recorded until then; a run that stays within its budget of "
     "points but never returns (an optimiser stalling on recorded points, e.g. SLSQP with store_jacobian=False "
     "recomputing one gradient for ever) contradicts no clause of the statement and gets no verdict (class "
-    "stalled_on_recorded_points_cut_by_harness); a 120 s watchdog (SIGALRM) is a safety net for runs that call nothing "
+    "stalled_on_recorded_points_cut_by_harness); a 30 s watchdog (SIGALRM) is a safety net for runs that call nothing "
     "of the harness: it yields 'inconclusive', never a verdict",
     "third-party internal caches count as part of the algorithm: repeated calls at one point are never counted twice",
     "with max_time only the degenerate value 1e-9 is generated (fires at the first new-iteration callback; no "
@@ -144,7 +144,7 @@ class WallTimeout(Exception):
     """Raised by the watchdog: a run that neither calls the user's functions nor returns (no verdict, reported as inconclusive)."""
 
 
-WATCHDOG_SECONDS = 120.0
+WATCHDOG_SECONDS = 30.0
 
 
 def _alarm(signum, frame):
